@@ -32,7 +32,7 @@ from . import findings
 LEVEL = "exploration"
 
 
-class CaseTimeout(Exception):
+class CaseTimeout(BaseException):
     pass
 
 
@@ -253,7 +253,7 @@ def run_property(pid: str, tier: str, seed: int) -> int:
                     aggs.append(rec["agg"])
                 for v in rec.get("viol") or []:
                     viols.append((rec["i"], v))
-                case_times.append(rec.get("t", 0))
+                case_times.append((rec.get("t", 0), rec["i"]))
         if not done and not any(f"shard {s}" in r for r in inconclusive):
             tail = ""
             try:
@@ -311,7 +311,9 @@ def run_property(pid: str, tier: str, seed: int) -> int:
         "known_finding_hits": known_hits,
         "new_violation_keys": sorted({v.get("key", "unclassified") for _, v in new_viols}),
         "inconclusive_reasons": inconclusive[:10],
-        "slowest_case_s": max(case_times) if case_times else 0.0,
+        "slowest_case_s": max(case_times)[0] if case_times else 0.0,
+        "slowest_cases": [{"t": t, "case": {k: v for k, v in cases[i].items() if k in ("kind", "sym", "cfg", "n", "first")}} for t, i in sorted(case_times, reverse=True)[:5]],
+        "cpu_s_sum_over_cases": round(sum(t for t, _ in case_times), 1),
         "tree": env.REPO,
     }
     if hasattr(mod, "BLOCKS"):
